@@ -25,15 +25,11 @@ type axisBuild struct {
 
 // axisBuilderFn: the SSA function containing the axis switch.
 func (w *World) axisBuilderFn() *ssa.Function {
-	si := w.axisSwitch()
-	if si == nil {
+	br, err := w.roles()
+	if err != nil {
 		return nil
 	}
-	obj, _ := w.Info.Defs[si.Func.Name].(*types.Func)
-	if obj == nil {
-		return nil
-	}
-	return w.Prog.FuncValue(obj)
+	return br.AxisB
 }
 
 // stringCaseOf: the string constant c such that blk is dominated by the true
@@ -113,52 +109,30 @@ func (w *World) axisBuilds(fn *ssa.Function) []*axisBuild {
 }
 
 func ruleADispatch(w *World, r *Report) {
-	r.rule("A-DISPATCH", "the builder's axis dispatch has a case for each of the twelve XPath 1.0 axes; every query built there takes as input the query built from the step's input (or the context query when there is none) and as node test the predicate built from the same step; X and X-or-self (X and X-sibling) build the same type differing exactly in one bool field that is true for the -or-self/-sibling variant; the eight base axes use pairwise different types")
-	fn := w.axisBuilderFn()
-	si := w.axisSwitch()
-	if fn == nil || si == nil {
-		r.bad("ANCHOR", "A-DISPATCH", "", "axis dispatch not found")
+	r.rule("A-DISPATCH", "the axis builder, followed by constant propagation with each axis name (builder_absint.go), builds a query for each of the XPath 1.0 axes; every query built takes as input the query built from the step's input (or the context query when there is none) and as node test the predicate built from the same step; X and X-or-self (X and X-sibling) build the same type differing exactly in one bool field that is true for the -or-self/-sibling variant; the eight base axes use pairwise different types")
+	tab, br, err := w.axisTable()
+	if err != nil {
+		r.bad("ANCHOR", "A-DISPATCH", "", "axis dispatch not found: "+err.Error())
 		return
 	}
+	fn := br.AxisB
 	r.FuncsAnalysed[fnName(fn)] = true
+	pos := w.pos(fn.Pos())
 	labels := map[string]bool{}
-	for _, c := range si.Cases {
-		for _, l := range c.Labels {
-			labels[l] = true
-		}
+	for _, l := range br.Axes {
+		labels[l] = true
 	}
 	for _, ax := range xpathAxes {
 		if labels[ax] {
-			r.ok("A-DISPATCH", "case:"+ax, w.pos(si.Stmt.Pos()), "has a case")
+			r.ok("A-DISPATCH", "case:"+ax, pos, "has a case")
 		} else {
-			r.bad("A-DISPATCH", "case:"+ax, w.pos(si.Stmt.Pos()), fmt.Sprintf("the axis dispatch has no case for %q: a valid XPath 1.0 axis is rejected or mis-built", ax))
+			r.bad("A-DISPATCH", "case:"+ax, pos, fmt.Sprintf("the axis dispatch has no case for %q: a valid XPath 1.0 axis is rejected or mis-built", ax))
 		}
 	}
-	root := fn.Params[1]
-	// the predicate built from root
-	var predCall *ssa.Call
-	eachInstr(fn, false, func(_ *ssa.Function, in ssa.Instruction) {
-		if c, ok := in.(*ssa.Call); ok && c.Call.StaticCallee() != nil && w.isPredicateFuncType(c.Type()) && len(c.Call.Args) == 1 && c.Call.Args[0] == ssa.Value(root) {
-			predCall = c
-		}
-	})
-	if predCall == nil {
-		r.bad("A-DISPATCH", "predicate", w.pos(fn.Pos()), "no node-test predicate is built from the step being compiled")
-		return
-	}
-	builds := w.axisBuilds(fn)
-	byLabel := map[string][]*axisBuild{}
-	for _, ab := range builds {
-		if ab.Label == "" {
-			continue
-		}
-		// builds outside the dispatch switch (the `//name` rewrite) are judged by A-ELIDE
-		if p := ab.Alloc.Pos(); p < si.Stmt.Pos() || p > si.Stmt.End() {
-			continue
-		}
-		// only step queries (those carrying a predicate field)
+	byLabel := map[string][]axisEntry{}
+	for _, e := range tab {
 		hasPred := false
-		for _, f := range ab.Type.Fields {
+		for _, f := range e.Type.Fields {
 			if w.isPredicateFuncType(f.Var.Type()) {
 				hasPred = true
 			}
@@ -166,87 +140,85 @@ func ruleADispatch(w *World, r *Report) {
 		if !hasPred {
 			continue
 		}
-		byLabel[ab.Label] = append(byLabel[ab.Label], ab)
+		if isFoldType(tab, e.Label, e.Type) {
+			continue // the `//name` rewrite: judged by A-ELIDE
+		}
+		byLabel[e.Label] = append(byLabel[e.Label], e)
 	}
 	for _, ax := range xpathAxes {
-		bs := byLabel[ax]
-		// the shortcut build of `//name` sits under the "child" test of the
-		// pre-switch code; it is judged by A-ELIDE. Keep builds in the switch.
-		if len(bs) == 0 {
-			if labels[ax] {
-				r.bad("A-DISPATCH", "build:"+ax, w.pos(si.Stmt.Pos()), fmt.Sprintf("the case for %q builds no step query", ax))
+		es := byLabel[ax]
+		if len(es) == 0 {
+			if labels[ax] && ax != "namespace" {
+				r.bad("A-DISPATCH", "build:"+ax, pos, fmt.Sprintf("the case for %q builds no step query", ax))
 			}
 			continue
 		}
-		for _, ab := range bs {
-			key := fmt.Sprintf("build:%s:%s", ax, ab.Type.Name())
-			pos := w.instrPos(ab.Alloc)
-			// node test
-			okPred := false
-			for fname, v := range ab.Fields {
-				if w.isPredicateFuncType(ab.Type.ByName[fname].Var.Type()) {
-					if v == ssa.Value(predCall) {
-						okPred = true
-					}
+		perType := map[string][]axisEntry{}
+		for _, e := range es {
+			perType[e.Type.Name()] = append(perType[e.Type.Name()], e)
+		}
+		for _, tn := range sortedKeysOf(perType) {
+			key := fmt.Sprintf("build:%s:%s", ax, tn)
+			bad := ""
+			for _, e := range perType[tn] {
+				switch {
+				case !e.PredOK:
+					bad = fmt.Sprintf("the %s query for axis %q does not get the node test built from this step: the step selects by a different (or no) test", tn, ax)
+				case e.HasIn && e.Input != "input":
+					bad = fmt.Sprintf("the %s query for axis %q is not fed by the step's own input (it gets %s)", tn, ax, e.Input)
+				case !e.HasIn && e.Input != "context":
+					bad = fmt.Sprintf("the %s query for axis %q of a step without input is not fed by the context query (it gets %s)", tn, ax, e.Input)
 				}
 			}
-			// input
-			okIn := false
-			inputDesc := ""
-			for fname, v := range ab.Fields {
-				if !ab.Type.ByName[fname].IsQuery {
-					continue
-				}
-				inputDesc = w.describeInput(fn, v, root)
-				if strings.HasPrefix(inputDesc, "ok:") && strings.Contains(inputDesc, "query built from this step's") {
-					okIn = true
-				}
-			}
-			switch {
-			case !okPred:
-				r.bad("A-DISPATCH", key, pos, fmt.Sprintf("the %s query for axis %q does not get the node test built from this step: the step selects by a different (or no) test", ab.Type.Name(), ax))
-			case !okIn:
-				r.bad("A-DISPATCH", key, pos, fmt.Sprintf("the %s query for axis %q is not fed by the step's own input (%s)", ab.Type.Name(), ax, inputDesc))
-			default:
-				r.ok("A-DISPATCH", key, pos, "input = "+strings.TrimPrefix(inputDesc, "ok:")+", node test = predicate of this step")
+			if bad != "" {
+				r.bad("A-DISPATCH", key, pos, bad)
+			} else {
+				r.ok("A-DISPATCH", key, pos, "input = query built from this step's input (context query when there is none), node test = predicate of this step")
 			}
 		}
 	}
 	// flag agreement
 	pairs := [][2]string{{"ancestor", "ancestor-or-self"}, {"descendant", "descendant-or-self"}, {"following", "following-sibling"}, {"preceding", "preceding-sibling"}}
+	flagsOf := func(es []axisEntry) map[string]map[string]bool {
+		out := map[string]map[string]bool{}
+		for _, e := range es {
+			out[e.Type.Name()] = e.Flags
+		}
+		return out
+	}
 	for _, p := range pairs {
-		a, b := byLabel[p[0]], byLabel[p[1]]
+		a, b := flagsOf(byLabel[p[0]]), flagsOf(byLabel[p[1]])
 		key := "flag:" + p[1]
 		if len(a) == 0 || len(b) == 0 || len(a) != len(b) {
-			r.bad("A-DISPATCH", key, w.pos(si.Stmt.Pos()), fmt.Sprintf("%s and %s do not build the same number of variants", p[0], p[1]))
+			r.bad("A-DISPATCH", key, pos, fmt.Sprintf("%s and %s do not build the same number of variants", p[0], p[1]))
 			continue
 		}
-		sort.Slice(a, func(i, j int) bool { return a[i].Type.Name() < a[j].Type.Name() })
-		sort.Slice(b, func(i, j int) bool { return b[i].Type.Name() < b[j].Type.Name() })
-		for i := range a {
-			if a[i].Type != b[i].Type {
-				r.bad("A-DISPATCH", key, w.instrPos(b[i].Alloc), fmt.Sprintf("%s builds %s but %s builds %s", p[0], a[i].Type.Name(), p[1], b[i].Type.Name()))
+		for _, tn := range sortedKeysOf(a) {
+			fb, same := b[tn]
+			if !same {
+				r.bad("A-DISPATCH", key, pos, fmt.Sprintf("%s builds %s but %s does not", p[0], tn, p[1]))
 				continue
 			}
 			var diffs []string
 			okFlag := true
-			for _, f := range a[i].Type.Fields {
-				bt, isB := f.Var.Type().Underlying().(*types.Basic)
-				if !isB || bt.Kind() != types.Bool {
-					continue
-				}
-				va, vb := boolConst(a[i].Fields[f.Var.Name()]), boolConst(b[i].Fields[f.Var.Name()])
-				if va != vb {
-					diffs = append(diffs, f.Var.Name())
+			for f, va := range a[tn] {
+				if vb := fb[f]; va != vb {
+					diffs = append(diffs, f)
 					if !(va == false && vb == true) {
 						okFlag = false
 					}
 				}
 			}
+			for f, vb := range fb {
+				if _, ok := a[tn][f]; !ok && vb {
+					diffs = append(diffs, f)
+				}
+			}
+			sort.Strings(diffs)
 			if len(diffs) == 1 && okFlag {
-				r.ok("A-DISPATCH", key+":"+a[i].Type.Name(), w.instrPos(b[i].Alloc), fmt.Sprintf("same type; %s is true exactly for %s", diffs[0], p[1]))
+				r.ok("A-DISPATCH", key+":"+tn, pos, fmt.Sprintf("same type; %s is true exactly for %s", diffs[0], p[1]))
 			} else {
-				r.bad("A-DISPATCH", key+":"+a[i].Type.Name(), w.instrPos(b[i].Alloc), fmt.Sprintf("%s and %s must differ in exactly one bool field, false for the first and true for the second; differing fields: %v", p[0], p[1], diffs))
+				r.bad("A-DISPATCH", key+":"+tn, pos, fmt.Sprintf("%s and %s must differ in exactly one bool field, false for the first and true for the second; differing fields: %v", p[0], p[1], diffs))
 			}
 		}
 	}
@@ -255,17 +227,26 @@ func ruleADispatch(w *World, r *Report) {
 	seenT := map[string]string{}
 	okBase := true
 	for _, ax := range base {
-		for _, ab := range byLabel[ax] {
-			if prev, dup := seenT[ab.Type.Name()]; dup && prev != ax {
+		for _, e := range byLabel[ax] {
+			if prev, dup := seenT[e.Type.Name()]; dup && prev != ax {
 				okBase = false
-				r.bad("A-DISPATCH", "distinct:"+ax, w.instrPos(ab.Alloc), fmt.Sprintf("axes %s and %s are both compiled to %s", prev, ax, ab.Type.Name()))
+				r.bad("A-DISPATCH", "distinct:"+ax, pos, fmt.Sprintf("axes %s and %s are both compiled to %s", prev, ax, e.Type.Name()))
 			}
-			seenT[ab.Type.Name()] = ax
+			seenT[e.Type.Name()] = ax
 		}
 	}
 	if okBase {
-		r.ok("A-DISPATCH", "distinct", w.pos(si.Stmt.Pos()), "the eight base axes are compiled to pairwise different iterator types")
+		r.ok("A-DISPATCH", "distinct", pos, "the eight base axes are compiled to pairwise different iterator types")
 	}
+}
+
+func sortedKeysOf[V any](m map[string]V) []string {
+	var out []string
+	for k := range m {
+		out = append(out, k)
+	}
+	sort.Strings(out)
+	return out
 }
 
 func boolConst(v ssa.Value) bool {
@@ -494,8 +475,13 @@ func ruleXTotal(w *World, r *Report) {
 		r.bad("ANCHOR", "X-TOTAL", "", fmt.Sprintf("only %d builder functions found", len(fns)))
 		return
 	}
+	br, _ := w.roles()
 	for _, fn := range fns {
 		r.FuncsAnalysed[fnName(fn)] = true
+		if br != nil && (fn == br.FuncB || fn == br.OpB || fn == br.AxisB) {
+			w.xTotalByBuilds(r, fn, br)
+			continue
+		}
 		perRet := w.xTotalPerReturn(fn)
 		for _, pr := range perRet {
 			key := fn.Name() + ":return"
@@ -747,7 +733,6 @@ func (w *World) blockLabel(b *ssa.BasicBlock, fn *ssa.Function) string {
 	return fmt.Sprintf("block %d", b.Index)
 }
 
-
 // strTest: the If of p tests `load(X.f) == "c"`; returns a key for X.f and c.
 func strTestOf(p *ssa.BasicBlock) (key string, c string, ok bool) {
 	ifi := blockIf(p)
@@ -852,7 +837,6 @@ func (w *World) stringFeasible(pred, blk *ssa.BasicBlock, fn *ssa.Function) bool
 	return !known || len(set) > 0
 }
 
-
 // excludedByDomain: the edge pred->blk is the fall-through of a chain of
 // `op == "c"` tests on the operator string of an operator node, and the chain
 // excludes every operator string the parser can produce.
@@ -861,8 +845,7 @@ func (w *World) excludedByDomain(pred, blk *ssa.BasicBlock, fn *ssa.Function) bo
 	if od == nil {
 		return false
 	}
-	obj, _ := w.Info.Defs[od.Switch.Func.Name].(*types.Func)
-	if obj == nil || w.Prog.FuncValue(obj) != fn {
+	if od.Builder != fn {
 		return false
 	}
 	g, err := w.grammar()
@@ -895,7 +878,6 @@ func (w *World) excludedByDomain(pred, blk *ssa.BasicBlock, fn *ssa.Function) bo
 	}
 	return true
 }
-
 
 // enumExhausted: the edge pred->blk is the fall-through of a chain of
 // `v == K` tests on one value v of a package-defined integer type, and the
@@ -947,4 +929,88 @@ func (w *World) enumExhausted(pred, blk *ssa.BasicBlock) bool {
 		}
 	}
 	return n > 0
+}
+
+// xTotalByBuilds: for the builder methods that dispatch on a name (function,
+// operator, axis) the outcomes are enumerated by constant propagation over
+// every name the method compares with plus one it compares with nothing
+// (builder_absint.go): none may be a nil query with a nil error. For the
+// operator builder only the operators the parser can produce count.
+func (w *World) xTotalByBuilds(r *Report, fn *ssa.Function, br *builderRoles) {
+	key := fn.Name() + ":return"
+	pos := w.pos(fn.Pos())
+	var nilnil, unknown []string
+	total := 0
+	switch fn {
+	case br.FuncB:
+		fb, _, err := w.functionBuilds()
+		if err != nil {
+			r.undec("X-TOTAL", key, pos, err.Error())
+			return
+		}
+		for k, outs := range fb {
+			for _, o := range outs {
+				total++
+				if o.NilNil {
+					nilnil = append(nilnil, fmt.Sprintf("%s() with %d argument(s)", k.Name, k.N))
+				}
+				if o.Unknown {
+					unknown = append(unknown, fmt.Sprintf("%s/%d", k.Name, k.N))
+				}
+			}
+		}
+	case br.OpB:
+		ob, _, err := w.operatorBuilds()
+		if err != nil {
+			r.undec("X-TOTAL", key, pos, err.Error())
+			return
+		}
+		prod := map[string]bool{}
+		if g, err := w.grammar(); err == nil {
+			prod = w.producedOperators(g)
+		}
+		for op, outs := range ob {
+			if !prod[op] {
+				continue
+			}
+			for _, o := range outs {
+				total++
+				if o.NilNil {
+					nilnil = append(nilnil, "operator "+op)
+				}
+				if o.Unknown {
+					unknown = append(unknown, op)
+				}
+			}
+		}
+	case br.AxisB:
+		ab, _, err := w.axisBuildsAI()
+		if err != nil {
+			r.undec("X-TOTAL", key, pos, err.Error())
+			return
+		}
+		for ax, outs := range ab {
+			for _, o := range outs {
+				total++
+				if o.NilNil {
+					nilnil = append(nilnil, "axis "+ax)
+				}
+				if o.Unknown {
+					unknown = append(unknown, ax)
+				}
+			}
+		}
+	}
+	sort.Strings(nilnil)
+	sort.Strings(unknown)
+	switch {
+	case len(nilnil) > 0:
+		r.bad("X-TOTAL", key, pos, fmt.Sprintf("%s can return a nil query with a nil error: for %s — the expression compiles and the nil query is dereferenced at run time", fn.Name(), strings.Join(dedup(nilnil), "; ")))
+	case len(unknown) > 0:
+		r.undec("X-TOTAL", key, pos, fmt.Sprintf("%s could not be followed to a result for %v", fn.Name(), dedup(unknown)))
+	case total == 0:
+		r.undec("X-TOTAL", key, pos, "no outcome enumerated")
+	default:
+		r.ok("X-TOTAL", key, pos, fmt.Sprintf("%d outcomes enumerated over every name compared with (and one unknown name): a nil error always comes with a query", total))
+	}
 }
